@@ -467,8 +467,8 @@ theorem multi_insert_stable (ops : List Op) (k v : Int) :
     PropsKSpec.lean states the refinement directly against the specification typed over `K` (SpecK.lean):
     `G.refines_relK`, `G.refines_run_relK` (closed in the extension round).
   * Which address an insert takes (LIFO free list, blocks of `ipbOf` items) is now proved for `Int` keys:
-    PropsIds.lean `alloc_lifo`, `insert_takes_free_head`, `remove_then_insert_reuses`.  `G.insert_takes_free_head` is the
-    statement for every key type; `alloc_lifo` / `remove_then_insert_reuses` are stated for `Int` keys only.
+    PropsIds.lean `alloc_lifo`, `insert_takes_free_head`, `remove_then_insert_reuses`.  `G.insert_takes_free_head`,
+    `G.remove_then_insert_reuses` are the statements for every key type.
   * PropsRot.lean ties `updateHeightAndSlope/rotr/rotl/shiftr/shiftl/rebal` to the headers by translation.
     STILL hand-translated (tied by the correspondence run incl. the white-box comparison only): the descent,
     list threading and upward loop of the private `insert`, `remove` (unlinking, `rebalParent`,
